@@ -240,7 +240,12 @@ type C01Plan struct {
 	TemplateAlpha  string `json:"template_alpha,omitempty"`
 	TemplateOffset int    `json:"template_offset,omitempty"`
 
-	tmpl seqio.SequenceAppender // a template shared with other readers (multi-instance cases)
+	// ByteDst: the destination is an io.ByteWriter as well as an io.Writer
+	// (as bufio.Writer and bytes.Buffer are); otherwise it offers only Write.
+	ByteDst bool `json:"byte_dst,omitempty"`
+
+	tmpl   seqio.SequenceAppender // a template shared with other readers (multi-instance cases)
+	shared *sharedPrefixes        // marker slices shared with other writers (multi-instance cases)
 	// TemplateCap > 0: the reader's template is empty but preallocated.
 	TemplateCap int            `json:"template_cap,omitempty"`
 	Delivery    simio.Delivery `json:"delivery"`
@@ -358,6 +363,7 @@ func genC01(r *simrt.RNG) *Case {
 	if r.Intn(10) == 0 {
 		pl.TemplateOffset = r.Pick(1, 2, 7, 100)
 	}
+	pl.ByteDst = r.Intn(4) == 0
 	if r.Intn(3) == 0 {
 		pl.WriteFault = 1 + r.Intn(1<<20)
 		if r.Bool() {
@@ -390,6 +396,35 @@ func buildSeq(rec SeqRec, pl *C01Plan) seq.Sequence {
 	s := linear.NewSeq(rec.Name, alphabet.BytesToLetters([]byte(rec.Letters)), alpha)
 	s.Desc = rec.Desc
 	return s
+}
+
+// sharedPrefixes: marker slices with spare capacity that several writers are
+// configured with (a writer may read its markers, never write behind them).
+type sharedPrefixes struct{ id, seq []byte }
+
+func (pl *C01Plan) dst(sink *simio.Sink) io.Writer {
+	if pl.ByteDst {
+		return sink
+	}
+	return simio.Plain{W: sink}
+}
+
+// configure sets the plan's markers on a FASTA writer.
+func (pl *C01Plan) configure(fw *fasta.Writer) {
+	if pl.SeqPrefix != "" {
+		fw.SeqPrefix = []byte(pl.SeqPrefix)
+	}
+	if pl.IDPrefix != "" {
+		fw.IDPrefix = []byte(pl.IDPrefix)
+	}
+	if pl.shared != nil {
+		if pl.SeqPrefix != "" {
+			fw.SeqPrefix = pl.shared.seq
+		}
+		if pl.IDPrefix != "" {
+			fw.IDPrefix = pl.shared.id
+		}
+	}
 }
 
 func seqTemplate(pl *C01Plan) seqio.SequenceAppender {
@@ -427,16 +462,11 @@ func writeSeqs(pl *C01Plan) ([]byte, int, *simrt.Violation) {
 func writeSeqsTo(pl *C01Plan, sink *simio.Sink) ([]byte, int, *simrt.Violation) {
 	var w seqio.Writer
 	if pl.Format == "fasta" {
-		fw := fasta.NewWriter(sink, pl.Width)
-		if pl.SeqPrefix != "" {
-			fw.SeqPrefix = []byte(pl.SeqPrefix)
-		}
-		if pl.IDPrefix != "" {
-			fw.IDPrefix = []byte(pl.IDPrefix)
-		}
+		fw := fasta.NewWriter(pl.dst(sink), pl.Width)
+		pl.configure(fw)
 		w = fw
 	} else {
-		fw := fastq.NewWriter(sink)
+		fw := fastq.NewWriter(pl.dst(sink))
 		fw.QID = pl.QID
 		w = fw
 	}
@@ -467,16 +497,11 @@ func runReject(pl *C01Plan, res *Result) *simrt.Violation {
 	sink := &simio.Sink{}
 	var w seqio.Writer
 	if pl.Format == "fasta" {
-		fw := fasta.NewWriter(sink, pl.Width)
-		if pl.SeqPrefix != "" {
-			fw.SeqPrefix = []byte(pl.SeqPrefix)
-		}
-		if pl.IDPrefix != "" {
-			fw.IDPrefix = []byte(pl.IDPrefix)
-		}
+		fw := fasta.NewWriter(pl.dst(sink), pl.Width)
+		pl.configure(fw)
 		w = fw
 	} else {
-		fw := fastq.NewWriter(sink)
+		fw := fastq.NewWriter(pl.dst(sink))
 		fw.QID = pl.QID
 		w = fw
 	}
@@ -794,9 +819,15 @@ func runPair(t *testing.T, c *Case, o RunOpts) *Result {
 		if pp.ShareTemplate && len(pp.Seq) > 0 {
 			shared = seqTemplate(&pp.Seq[0])
 		}
+		var marks *sharedPrefixes
+		if pp.ShareTemplate && len(pp.Seq) > 0 {
+			// one marker slice (with room behind it) for all writers
+			marks = &sharedPrefixes{id: append(make([]byte, 0, 64), pp.Seq[0].IDPrefix...), seq: append(make([]byte, 0, 64), pp.Seq[0].SeqPrefix...)}
+		}
 		for i := range pp.Seq {
 			pl := &pp.Seq[i]
 			pl.tmpl = shared
+			pl.shared = marks
 			i := i
 			sim.Client(fmt.Sprintf("roundtrip%d", i), func() {
 				sink := &simio.Sink{OnWrite: yield}
